@@ -54,6 +54,11 @@ def make_plan(tape, prop):
             "compact_exprs": tape.chance(1, 2)}
     # a patch file that changes a member's type after parsing, and with it a dependency edge
     plan["patch"] = [tape.draw(1 << 10), tape.draw(1 << 10), tape.draw(1 << 10)] if tape.chance(1, 6) else None
+    # an (unrelated) included file whose name is, two times out of three, the name of a definition of the main file:
+    # include nodes and definitions share the sorter's name space
+    plan["include"] = None
+    if tape.chance(1, 5) and n:
+        plan["include"] = "base" if tape.chance(1, 3) else schema["defs"][tape.draw(n)]["name"]
     return plan
 
 
@@ -181,11 +186,16 @@ class OrderRun(object):
         layouts = []
         for pi, perm in enumerate(plan["perms"]):
             defs = [rendered["defs"][i] for i in perm if i < len(rendered["defs"])]
-            text = render.isar_text(defs)
+            inc = plan.get("include")
+            text = render.isar_text(defs, includes=["%s.xml" % inc] if inc else ())
             self.text = text
             fs = simfs.FakeFS("/w")
             fs.mkdir("/w/out")
             fs.put("/w/s.xml", text)
+            if inc:
+                fs.put("/w/%s.xml" % inc, render.isar_text([{"k": "const", "name": "XINC_K", "expr": "1"}]))
+                self.faults["include-named-%s" % ("base" if inc == "base" else "like-a-definition")] = \
+                    self.faults.get("include-named-%s" % ("base" if inc == "base" else "like-a-definition"), 0) + 1
             argv = ["--isar", "--python_out", "/w/out"]
             if patch_text:
                 fs.put("/w/p.patch", patch_text)
@@ -218,7 +228,7 @@ class OrderRun(object):
                     return v
                 continue
             out_nodes = nodes["s"]
-            out_names = [n.name for n in out_nodes]
+            out_names = [n.name for n in out_nodes if type(n).__name__ != "Include"]
             self.log.update((" -> " + " ".join(out_names)).encode())
             # each definition exactly once
             if sorted(out_names) != sorted(names):
@@ -240,8 +250,15 @@ class OrderRun(object):
                             return v
             # the generated module imports
             src = fs.get("/w/out/s.py")
+            sources = {"s": src}
+            if inc:
+                f2 = simfs.FakeFS("/w")
+                f2.mkdir("/w/out")
+                f2.put("/w/%s.xml" % inc, fs.get("/w/%s.xml" % inc))
+                simworld.run_prophyc(f2, ["--isar", "--python_out", "/w/out", "/w/%s.xml" % inc])
+                sources[inc] = f2.get("/w/out/%s.py" % inc) or ""
             try:
-                mod = simworld.import_generated({"s": src})["s"]
+                mod = simworld.import_generated(sources, want=["s"])["s"]
             except Exception as e:
                 v = self.viol("C15", "import", "C15/module-import-failed/%s/%s" % (type(e).__name__, _msgkey(e)), pi,
                               "generated module does not import for input order [%s]: %s: %s" %
